@@ -38,7 +38,7 @@ def palette(kind):
     if lab in ('EP', 'IX'):
         return [0, 1, 2, 5, 100, -3]
     if lab == 'ET':
-        return [-192, 32, 64, 128, 8]
+        return [-128, 32, 64, 256, 8]      # powers of two: EV* normalisation stays exact
     raise ValueError(kind)
 
 
